@@ -46,6 +46,15 @@ type Case struct {
 	// Whatever the runtime needs to raise a condition must not depend on what
 	// the current package happens to use.
 	In string `json:"in,omitempty"`
+	// Amb: the piece of ambient state that is not the default while the call
+	// (or the read, or the format call) is evaluated; see ambient.go.
+	Amb string `json:"amb,omitempty"`
+	// Dest: format only: where the output goes and through which function the
+	// control string arrives (see fmtDests in format.go); "" = (format nil ...).
+	Dest string `json:"dest,omitempty"`
+	// After: chain cases only (see chain.go): the call that is evaluated (inside
+	// ignore-errors) on the same object before the call under observation.
+	After []string `json:"after,omitempty"`
 	Text  string `json:"text,omitempty"` // src: a program text that is read and evaluated
 }
 
@@ -116,6 +125,71 @@ func getLayout(tier string) []block {
 		}
 		return c
 	}}
+	// ambient state: every function x ambArgs x every ambient state (deterministic,
+	// also in the quick tier), and the whole fn1 block x every ambient state
+	nA, nAA := len(ambients), len(ambArgs)
+	fn1ambDet := block{name: "fn1-ambient-det", n: nT * nAA * nA, gen: func(_ *rand.Rand, k int) Case {
+		c := mkFn(&targets[k/(nAA*nA)], ambArgs[(k/nA)%nAA])
+		if c.K == "fn" {
+			c.Amb = ambients[k%nA]
+		}
+		return c
+	}}
+	fn0amb := block{name: "fn0-ambient", n: nT * nA, gen: func(_ *rand.Rand, k int) Case {
+		c := mkFn(&targets[k/nA])
+		if c.K == "fn" {
+			c.Amb = ambients[k%nA]
+		}
+		return c
+	}}
+	fn1amb := block{name: "fn1-ambient", n: nT * P * nA, gen: func(_ *rand.Rand, k int) Case {
+		c := mkFn(&targets[k/(P*nA)], pool[(k/nA)%P].Name)
+		if c.K == "fn" {
+			c.Amb = ambients[k%nA]
+		}
+		return c
+	}}
+	fn2amb := block{name: "fn2-ambient", n: nT * Q * Q * nA, gen: func(_ *rand.Rand, k int) Case {
+		c := mkFn(&targets[k/(Q*Q*nA)], quickPool[(k/(Q*nA))%Q], quickPool[(k/nA)%Q])
+		if c.K == "fn" {
+			c.Amb = ambients[k%nA]
+		}
+		return c
+	}}
+	// built-in methods through send
+	loadSendTargets()
+	nS, SP := len(sendTargets), len(sendPairPool)
+	send01 := block{name: "send-0-1", n: nS * (1 + P), gen: func(_ *rand.Rand, k int) Case {
+		st := &sendTargets[k/(1+P)]
+		if k%(1+P) == 0 {
+			return mkSend(st)
+		}
+		return mkSend(st, pool[k%(1+P)-1].Name)
+	}}
+	send2q := block{name: "send-2-pairpool", n: nS * SP * SP, gen: func(_ *rand.Rand, k int) Case {
+		return mkSend(&sendTargets[k/(SP*SP)], sendPairPool[(k/SP)%SP], sendPairPool[k%SP])
+	}}
+	send2 := block{name: "send-2-quickpool", n: nS * Q * Q, gen: func(_ *rand.Rand, k int) Case {
+		return mkSend(&sendTargets[k/(Q*Q)], quickPool[(k/Q)%Q], quickPool[k%Q])
+	}}
+	send3 := block{name: "send-3-smallpool", n: nS * S * S * S, gen: func(_ *rand.Rand, k int) Case {
+		return mkSend(&sendTargets[k/(S*S*S)], smallPool[(k/(S*S))%S], smallPool[(k/S)%S], smallPool[k%S])
+	}}
+	send1amb := block{name: "send-1-ambient", n: nS * (1 + nAA) * nA, gen: func(_ *rand.Rand, k int) Case {
+		st := &sendTargets[k/((1+nAA)*nA)]
+		var c Case
+		if a := (k / nA) % (1 + nAA); a == 0 {
+			c = mkSend(st)
+		} else {
+			c = mkSend(st, ambArgs[a-1])
+		}
+		if c.K == "fn" {
+			c.Amb = ambients[k%nA]
+		}
+		return c
+	}}
+	chain := block{name: "chain", n: chainN(), gen: func(_ *rand.Rand, k int) Case { return genChain(k) }}
+	chainStride := block{name: "chain-stride-16", n: chainN() / 16, gen: func(_ *rand.Rand, k int) Case { return genChain(k*16 + (k*7)%16) }}
 	kw := kwCases()
 	// malformed keyword parts: value missing, key duplicated, non-keyword in key position
 	kwBad := block{name: "fn-keywords-malformed", n: len(kw) * len(kwShapes), gen: func(_ *rand.Rand, k int) Case {
@@ -139,22 +213,27 @@ func getLayout(tier string) []block {
 		return block{name: "fn-seeded-tuples", n: n, seeded: true, gen: func(r *rand.Rand, _ int) Case { return genN(r) }}
 	}
 	fmtDet := block{name: "fmt-det", n: fmtDetN(), gen: func(r *rand.Rand, k int) Case { return genFmt(r, k) }}
+	fmtDest := block{name: "fmt-dest-det", n: fmtDestN(), gen: func(_ *rand.Rand, k int) Case { return genFmtDest(k) }}
 	fmtSeed := func(n int) block {
 		return block{name: "fmt-seeded", n: n, seeded: true, gen: func(r *rand.Rand, _ int) Case { return genFmt(r, fmtDetN()) }}
 	}
 	rdDet := block{name: "rd-det", n: rdDetN(), gen: func(r *rand.Rand, k int) Case { return genRd(r, k) }}
+	rdAmb := block{name: "rd-ambient-det", n: rdAmbN(), gen: func(_ *rand.Rand, k int) Case { return genRdAmb(k) }}
 	rdSeed := func(n int) block {
 		return block{name: "rd-seeded", n: n, seeded: true, gen: func(r *rand.Rand, _ int) Case { return genRd(r, rdDetN()) }}
 	}
 	var l []block
 	switch tier {
 	case "thorough":
-		l = []block{fn0, fn1, fn1twice, fn1in, fn2, fn3, fnkw, kwBad, fnN(200000), srcDet, fmtDet, fmtSeed(200000), rdDet, rdSeed(200000)}
+		l = []block{fn0, fn1, fn1twice, fn1in, fn0amb, fn1amb, sampled(fn2amb, 200000), send01, send2, send3, send1amb, chain, fn2, fn3, fnkw, kwBad, fnN(200000),
+			srcDet, fmtDet, fmtDest, fmtSeed(200000), rdDet, rdAmb, rdSeed(200000)}
 	case "seeded": // development aid: the seeded blocks of the thorough tier only
 		l = []block{fnN(200000), fmtSeed(200000), rdSeed(200000)}
 	default:
-		l = []block{fn0, fn1, sampled(fn1twice, 15000), sampled(fn1in, 20000), fn2q, sampled(fn2, 30000), sampled(fn3, 15000), sampled(fnkw, 10000), sampled(kwBad, 10000), fnN(15000),
-			srcDet, fmtDet, fmtSeed(5000), rdDet, rdSeed(10000)}
+		l = []block{fn0, fn1, sampled(fn1twice, 15000), sampled(fn1in, 20000), fn0amb, fn1ambDet, sampled(fn1amb, 15000), sampled(fn2amb, 10000),
+			send01, send2q, send1amb, sampled(send2, 5000), sampled(send3, 5000), chainStride, sampled(chain, 5000),
+			fn2q, sampled(fn2, 30000), sampled(fn3, 15000), sampled(fnkw, 10000), sampled(kwBad, 10000), fnN(15000),
+			srcDet, fmtDet, fmtDest, fmtSeed(5000), rdDet, rdAmb, rdSeed(10000)}
 	}
 	layouts[tier] = l
 	return l
@@ -356,6 +435,7 @@ func workerInit() {
 		panic(msg)
 	}
 	cleanUser() // records the base world of cl-user
+	ambInit()
 	runtime.GC()
 	time.Sleep(10 * time.Millisecond)
 	baseGo = runtime.NumGoroutine()
@@ -444,7 +524,30 @@ func waitGoroutines() {
 	}
 }
 
+// loggers: the logger-flavor instances the current case built. Each owns a
+// writer goroutine that only ends with :shutdown.
+var loggers []slip.Object
+
+func shutdownLoggers(x *fw.Ctx, c *Case) {
+	for _, lg := range loggers {
+		if inst, ok := lg.(slip.Instance); ok && !(len(c.Args) > 1 && c.Args[1] == ":shutdown") && !(len(c.After) == 2 && strings.Contains(c.After[1], ":shutdown")) {
+			done := make(chan bool, 1)
+			go func() {
+				_ = sl.Catch(func() { inst.Receive(slip.NewScope(), ":shutdown", nil, 0) })
+				done <- true
+			}()
+			select {
+			case <-done:
+			case <-time.After(500 * time.Millisecond):
+				x.Cover("logger-shutdown-timeout")
+			}
+		}
+	}
+	loggers = loggers[:0]
+}
+
 func afterCase(x *fw.Ctx, c *Case) {
+	shutdownLoggers(x, c)
 	waitGoroutines()
 	if baseGo < runtime.NumGoroutine() {
 		x.Cover("goroutines-left-running")
@@ -608,6 +711,8 @@ func classesOf(args []string) string {
 		switch {
 		case strings.HasPrefix(a, ":"):
 			cs[i] = a
+		case a == "@":
+			cs[i] = "@"
 		case poolIndex[a] != nil:
 			cs[i] = poolIndex[a].Class
 		default:
@@ -634,6 +739,10 @@ func inText(c *Case) string {
 // message and the witness, not in the signature: one missing guard shows up
 // for dozens of argument tuples.
 func fnSig(c *Case, what string) string {
+	if flavor, method, ok := sendOf(c); ok {
+		// a built-in method: the failing construct is the method, not send
+		return sigName(what + " send=" + flavor + " " + method)
+	}
 	if c.Raw {
 		return sigName(what + " fn=" + c.Fn + " raw")
 	}
@@ -651,11 +760,20 @@ func renderCall(c *Case) string {
 		b.WriteByte(' ')
 		if po := poolIndex[a]; po != nil {
 			b.WriteString(po.Src)
+		} else if a == "@" {
+			b.WriteString("c09-o")
 		} else {
 			b.WriteString(a)
 		}
 	}
 	b.WriteString(")")
+	if 2 == len(c.After) {
+		src := c.After[0]
+		if po := poolIndex[src]; po != nil {
+			src = po.Src
+		}
+		return "(let ((c09-o " + src + ")) (ignore-errors " + c.After[1] + ") " + b.String() + ")"
+	}
 	if c.Raw {
 		b.WriteString(" [raw: at unevaluated positions the object itself, unquoted]")
 	}
@@ -671,6 +789,9 @@ func buildArg(scope *slip.Scope, po *poolObj) (slip.Object, string) {
 		return po.Make(), ""
 	}
 	obj, err := sl.Eval(scope, po.Src)
+	if err == nil && po.Name == "i-logger-flavor" {
+		loggers = append(loggers, obj)
+	}
 	if err != nil {
 		// a previous case damaged a helper: restore and retry once
 		setupWorld()
@@ -698,6 +819,10 @@ func buildForm(scope *slip.Scope, c *Case) (form slip.List, emptyValues bool, he
 	for i, a := range c.Args {
 		if strings.HasPrefix(a, ":") {
 			form = append(form, slip.Symbol(a))
+			continue
+		}
+		if a == "@" { // chain cases: the object of the history
+			form = append(form, slip.Symbol("c09-o"))
 			continue
 		}
 		po := poolIndex[a]
@@ -731,6 +856,9 @@ func fnContext(c *Case) string {
 	ctx := "fn=" + sigName(c.Fn)
 	if c.Raw {
 		ctx += " raw"
+	}
+	if flavor, method, ok := sendOf(c); ok {
+		ctx = "send=" + flavor + " " + method
 	}
 	if 2 < len(c.Args) {
 		return ctx + " args=3+"
@@ -772,22 +900,67 @@ func execFn(x *fw.Ctx, c *Case) {
 		ctx += " in=" + c.In
 		insig = " in=" + c.In
 	}
+	var evalForm slip.Object = form
+	if len(c.After) == 2 {
+		x.Cover("chain:" + c.After[0])
+		if evalForm, herr = chainWrap(scope, c, form, true); herr != "" {
+			x.Fail("harness-pool", "%s", herr)
+			return
+		}
+		ctx += " after=" + sigName(c.After[1])
+		insig = " after=" + sigName(c.After[1])
+	}
+	if c.Amb != "" {
+		x.Cover("ambient:" + c.Amb)
+		if evalForm, herr = ambEnter(c.Amb, form); herr != "" {
+			ambLeave()
+			x.Fail("harness-pool", "%s", herr)
+			return
+		}
+		ctx += " amb=" + c.Amb
+		insig = " amb=" + c.Amb
+	}
 	markContext(ctx)
 	a0 := allocBytes()
 	var res slip.Object
-	err := sl.Catch(func() { res = scope.Eval(form, 0) })
-	if c.In != "" {
+	err := sl.Catch(func() { res = scope.Eval(evalForm, 0) })
+	if c.Amb != "" {
+		err = ambOutcome(c.Amb, res, err)
+		ambLeave()
+		x.Cover("ambient-outcome:" + c.Amb + ":" + classify(err).kind)
+	}
+	if len(c.After) == 2 {
+		x.Cover("chain-outcome:" + classify(err).kind)
+	}
+	if c.In != "" || c.Amb != "" || len(c.After) == 2 {
 		slip.CurrentPackage = &slip.UserPkg
-		if o1 := classify(err); o1.kind == "fault" || o1.kind == "raw-panic" || o1.kind == "undocumented" {
-			// Differential: the same call with the user package current. When it
-			// fails in the same way there, the failure belongs to the function
-			// (signature without in=), otherwise to the current package.
+		if o1 := classify(err); o1.kind == "fault" || o1.kind == "raw-panic" || o1.kind == "undocumented" || o1.kind == "budget" {
+			if len(c.After) == 2 {
+				// the first step may have redefined or removed a helper of the pool
+				afterCase(x, c)
+				setupWorld()
+			}
+			// Differential: the same call with the user package current and the
+			// default state. When it fails in the same way there, the failure
+			// belongs to the function (signature without in= / amb=), otherwise to
+			// the current package / the ambient state.
 			if form2, _, e2 := buildForm(scope, c); e2 == "" {
+				var eval2 slip.Object = form2
+				if len(c.After) == 2 {
+					eval2, e2 = chainWrap(scope, c, form2, false)
+				}
 				steps, budgetAt = 0, stepBudget
-				err2 := sl.Catch(func() { _ = scope.Eval(form2, 0) })
-				if o2 := classify(err2); o2.kind == o1.kind && o2.fault == o1.fault {
+				err2 := sl.Catch(func() { _ = scope.Eval(eval2, 0) })
+				if o2 := classify(err2); e2 == "" && o2.kind == o1.kind && o2.fault == o1.fault {
 					insig = ""
-					x.Cover("in-package:same-failure-in-user-package")
+					switch {
+					case c.In != "":
+						x.Cover("in-package:same-failure-in-user-package")
+					case c.Amb != "":
+						x.Cover("ambient:same-failure-in-default-state")
+					default:
+						x.Cover("chain:same-failure-on-a-fresh-object")
+					}
 				}
 			}
 		}
@@ -818,14 +991,14 @@ func execFn(x *fw.Ctx, c *Case) {
 		obs["condition"] = oc.err.Class
 	case "fault":
 		x.Cover("outcome:internal-fault")
-		x.Fail(fnSig(c, "fault="+oc.fault)+again+insig, "%s%s%s => internal fault reported as %s: %s", renderCall(c), inText(c),
+		x.Fail(fnSig(c, "fault="+oc.fault)+again+insig, "%s%s%s => internal fault reported as %s: %s", renderCall(c), inText(c)+ambText(c.Amb),
 			map[bool]string{true: " [the same form evaluated a second time]", false: ""}[again != ""], oc.err.Class, oc.err.Msg)
 	case "raw-panic":
 		x.Cover("outcome:raw-go-panic")
-		x.Fail(fnSig(c, "raw-go-panic")+insig, "%s%s => a bare Go panic value (%s) instead of a condition: %s", renderCall(c), inText(c), oc.err.GoType, oc.err.Msg)
+		x.Fail(fnSig(c, "raw-go-panic")+insig, "%s%s => a bare Go panic value (%s) instead of a condition: %s", renderCall(c), inText(c)+ambText(c.Amb), oc.err.GoType, oc.err.Msg)
 	case "budget":
 		x.Cover("outcome:over-step-budget")
-		x.Fail(fnSig(c, "over-budget"), "%s => more than %d evaluation steps", renderCall(c), stepBudget)
+		x.Fail(fnSig(c, "over-budget")+insig, "%s%s => more than %d evaluation steps", renderCall(c), inText(c)+ambText(c.Amb), stepBudget)
 	case "undocumented":
 		if c.Fn == "gi:panic" {
 			// documented dialect: (panic obj) raises obj itself, whatever it is
@@ -833,7 +1006,7 @@ func execFn(x *fw.Ctx, c *Case) {
 			break
 		}
 		x.Cover("outcome:undocumented-class")
-		x.Fail(fnSig(c, "not-a-condition")+insig, "%s%s => signalled something that is not a condition: chain %v: %s", renderCall(c), inText(c), oc.err.Chain, oc.err.Msg)
+		x.Fail(fnSig(c, "not-a-condition")+insig, "%s%s => signalled something that is not a condition: chain %v: %s", renderCall(c), inText(c)+ambText(c.Amb), oc.err.Chain, oc.err.Msg)
 	}
 	if allocBudget < used {
 		x.Cover("outcome:over-alloc-budget")
@@ -994,7 +1167,7 @@ func probeMain(args []string) int {
 		err = sl.Catch(func() { _ = scope.Eval(form, 0) })
 	case "fmt":
 		var herr string
-		if _, err, herr = fmtCall(scope, c.Ctl, c.Args); herr != "" {
+		if _, err, herr = fmtCall(scope, c.Dest, c.Ctl, c.Args); herr != "" {
 			fmt.Fprintln(os.Stderr, herr)
 			return 3
 		}
